@@ -118,6 +118,19 @@ pub fn check_header(c: &HeaderCase, dir: &std::path::Path) -> Verdict {
         }
         return v;
     }
+    if c.via == "python" {
+        match crate::pyworker::ask(&serde_json::json!({"op": "header", "k": c.k})) {
+            Ok(r) => {
+                let h: Vec<String> = r["ok"].as_array().map(|a| a.iter().map(|x| x.as_str().unwrap_or("").to_string()).collect()).unwrap_or_default();
+                if h != texts {
+                    let pos = h.iter().zip(texts.iter()).position(|(a, b)| a != b);
+                    v.fail("header-python", format!("k={}: OligoComputer({}).get_header() differs from the canonical k-mers in rank order (len {} vs {}, first difference at {:?}; answer {})", c.k, c.k, h.len(), texts.len(), pos, crate::util::trunc(&r.to_string(), 200)));
+                }
+            }
+            Err(e) => v.fail("python-worker", e),
+        }
+        return v;
+    }
     let (preset, delim) = match c.via.as_str() {
         "cli-csv" => ("csv", ","),
         "cli-tsv" => ("tsv", "\t"),
@@ -153,6 +166,9 @@ pub fn header_cases() -> Vec<HeaderCase> {
     for k in 1..=8 {
         out.push(HeaderCase { k, via: "lib".into() });
     }
+    for k in 1..=8 {
+        out.push(HeaderCase { k, via: "python".into() });
+    }
     for k in 3..=7 {
         for via in ["cli-csv", "cli-tsv", "cli-spc"] {
             out.push(HeaderCase { k, via: via.into() });
@@ -177,7 +193,7 @@ pub fn run(ctx: &mut Ctx) {
     }
     let dir = ctx.workdir.clone();
     let hc: Vec<HeaderCase> = header_cases().into_iter().enumerate().filter(|(i, _)| i % ctx.nshards == ctx.shard).map(|(_, c)| c).collect();
-    ctx.run_enum("headers", "library header k=1..=8; CLI header k=3..=7 x {csv,tsv,spc} x {norm,counts}", hc.into_iter(), false, |c| check_header(c, &dir));
+    ctx.run_enum("headers", "library header k=1..=8; Python get_header() k=1..=8; CLI header k=3..=7 x {csv,tsv,spc} x {norm,counts}", hc.into_iter(), false, |c| check_header(c, &dir));
 }
 
 pub fn replay(leg: &str, case: &serde_json::Value) -> Option<Result<Verdict, String>> {
